@@ -355,6 +355,10 @@ func DeserializeData(s []byte, uncompress bool) ([]byte, CompressionFormat, erro
 			data = make([]byte, len(cdata)-4)
 			copy(data, cdata[4:])
 		} else {
+			// LZ4 expands a block at most 255-fold: a larger claim is a damaged or hostile prefix.
+			if int64(origSize) > 255*int64(len(cdata)) {
+				return nil, 0, fmt.Errorf("LZ4 serialization of %d bytes claims an uncompressed size of %d bytes", len(cdata), origSize)
+			}
 			data = make([]byte, int(origSize))
 			if err := lz4.Uncompress(cdata[4:], data); err != nil {
 				return nil, 0, err
